@@ -93,7 +93,9 @@ static unsigned arg_start(const char *msg_)
     const uint8_t *aligned_ptr = args-1;
     const uint8_t *arg_pos = args;
 
-    while(*++arg_pos);
+    //an empty type string ends at its first byte
+    while(*arg_pos)
+        ++arg_pos;
     //Alignment
     arg_pos += 4-(arg_pos-aligned_ptr)%4;
     return arg_pos-msg;
